@@ -5,6 +5,8 @@
   code as found (the instance list used to be aliased).
 -/
 import HSModel.Spec
+import HSModel.Proofs.RefineAll
+import HSModel.Proofs.StepLemmas
 namespace HS.C02
 
 /-- every supported hashlib name is accepted unchanged (complete table) -/
@@ -75,5 +77,102 @@ theorem asFound_refuted :
 
 example : refineAlgorithmList defaultAlgos (some "sha224".toList) (some "blake2b".toList) =
     defaultAlgos ++ ["blake2b".toList, "sha224".toList] := by decide
+
+section
+open Abs
+variable (cfg : Config) (o : Oracle)
+
+/-! ### the calls (specification, then the program text through the refinement) -/
+
+/-- a successful `store_object` reports, for the content `t` it was given, the
+    record that depends on `t` and on the algorithms named in this very call and
+    on nothing else: keys = the five defaults plus the accepted non-default
+    names of the call, each mapped to the true digest (`spec_digests`,
+    `refine_mem`). The state `a` — every earlier call — does not occur in it. -/
+theorem store_reports_exactly (a : Abs) (pid : SArg) (data : DataArg) (add cks ca : SArg) (sz : IArg)
+    (v : Val) (h : (step cfg o a (.storeObject pid data add cks ca sz)).1 = .ok v) :
+    (pid = .none ∧ ∃ t, data = .ok t ∧ v = .objMeta (objMetaOf cfg o t none none)) ∨
+    (∃ p add' cs' t, storeArgs cfg pid data add cks ca sz = .ok (p, add', cs', t) ∧
+      v = .objMeta (objMetaOf cfg o t add' cs')) := by
+  simp only [step] at h
+  split at h
+  · left
+    unfold storeData at h
+    split at h
+    · cases h
+    · rename_i t ht
+      have hd := dataOnly_data ht
+      simp only [Except.ok.injEq] at h
+      exact ⟨rfl, t, hd, h.symm⟩
+  · right
+    unfold storeObj at h
+    split at h
+    · cases h
+    · rename_i p add' cs' t hargs
+      try simp only [] at h
+      split at h
+      · cases h
+      · cases hr : ((a.addObj (objMetaOf cfg o t add' cs').cid t).tag p (objMetaOf cfg o t add' cs').cid).1 with
+        | error e => rw [hr] at h; simp [Except.map] at h
+        | ok u =>
+          rw [hr] at h
+          simp only [Except.map, Except.ok.injEq] at h
+          exact ⟨p, add', cs', t, hargs, h.symm⟩
+
+/-- … so two stores of the same call that both succeed, on whatever two states,
+    report the same record -/
+theorem store_report_history_free (a1 a2 : Abs) (pid : SArg) (data : DataArg) (add cks ca : SArg) (sz : IArg)
+    (v1 v2 : Val) (h1 : (step cfg o a1 (.storeObject pid data add cks ca sz)).1 = .ok v1)
+    (h2 : (step cfg o a2 (.storeObject pid data add cks ca sz)).1 = .ok v2) : v1 = v2 := by
+  rcases store_reports_exactly cfg o a1 pid data add cks ca sz v1 h1 with ⟨hp, t, hd, hv⟩ | ⟨p, add', cs', t, ha, hv⟩
+  · rcases store_reports_exactly cfg o a2 pid data add cks ca sz v2 h2 with ⟨_, t', hd', hv'⟩ | ⟨p', add'', cs'', t', ha', _⟩
+    · rw [hd] at hd'; cases hd'; rw [hv, hv']
+    · subst hp; simp [storeArgs, checkString] at ha'
+  · rcases store_reports_exactly cfg o a2 pid data add cks ca sz v2 h2 with ⟨hp, _, _, _⟩ | ⟨p', add'', cs'', t', ha', hv'⟩
+    · subst hp; simp [storeArgs, checkString] at ha
+    · rw [ha] at ha'; cases ha'; rw [hv, hv']
+
+/-- `get_hex_digest(pid, algorithm)`, when it returns, returns the true digest of
+    the content bound to the pid under the normalised name of the algorithm —
+    for every accepted spelling (`clean_dataone`, `clean_case_insensitive`) -/
+theorem hex_digest_true (a : Abs) (pid alg : SArg) (d : Str)
+    (h : (step cfg o a (.getHexDigest pid alg)).1 = .ok (.hex d)) :
+    ∃ p al a' cid t, pid = .str p ∧ alg = .str al ∧ cleanAlgorithm al = .ok a' ∧ a.bind.get p = some cid ∧
+      a.objs.get cid = some t ∧ d = o.dig a' t := by
+  simp only [step, hexDigest] at h
+  split at h
+  · cases h
+  · rename_i p a' hargs
+    simp only [bind_eq_ok, pure_eq_ok] at hargs
+    obtain ⟨p1, hp1, al, hal, a1, ha1, he⟩ := hargs
+    cases he
+    have e1 := checkString_ok hp1
+    have e2 := checkString_ok hal
+    split at h
+    · cases h
+    · rename_i cid hfind
+      split at h
+      · rename_i t ht
+        simp only [Except.ok.injEq, Val.hex.injEq] at h
+        unfold find at hfind
+        split at hfind
+        · cases hfind
+        · rename_i c hb
+          split at hfind
+          · cases hfind
+            exact ⟨_, al, _, _, t, e1, e2, ha1, hb, ht, h.symm⟩
+          · cases hfind
+      · cases h
+
+/-- the program text returns what the specification returns (any directory that
+    simulates `a`, in particular after any history): the three statements above
+    are statements about `store_object` and `get_hex_digest` as executed -/
+theorem concrete_reports (call : Call) (st : Store) (log : List Eff) (a : Abs) (hs : Sim o st a)
+    (ho : GoodOracle o) (hc : CidArgPlain call) :
+    ((call.prog cfg o).run (calm st log)).1 = (step cfg o a call).1 := by
+  obtain ⟨w', h1, _⟩ := refines_step cfg o call st log a hs ho hc
+  rw [h1]
+
+end
 
 end HS.C02
